@@ -20,7 +20,7 @@ class Ctx:
         if clean:
             shutil.rmtree(self.out, ignore_errors=True)
         os.makedirs(self.out, exist_ok=True)
-        self.h = os.path.join(root, "harness", "bin", "h")
+        self.h = os.path.join(root, "harness", "bin", "h-" + pid)
         self.violations = []     # dicts: unit, sig, what, replay
         self.inconclusive = []   # strings
         self.states = 0
@@ -74,13 +74,13 @@ def build_harness(ctx, race=False):
     with open(os.path.join(hdir, "go.sum"), "w") as fh:
         fh.write("\n".join(sorted(sums)) + "\n")
     os.makedirs(os.path.join(hdir, "bin"), exist_ok=True)
-    cmd = ["go", "build", "-tags", "verif", "-o", "bin/h", "./cmd/h"]
+    cmd = ["go", "build", "-tags", "verif", "-o", "bin/h-" + ctx.pid, "./cmd/" + ctx.pid.lower()]
     p = subprocess.run(cmd, cwd=hdir, env=goenv(), stdout=subprocess.PIPE, stderr=subprocess.STDOUT, text=True)
     if p.returncode != 0:
         print(p.stdout)
         raise Inconclusive("harness does not build against /repo (exit %d)" % p.returncode)
     if race:
-        cmd = ["go", "build", "-race", "-tags", "verif", "-o", "bin/h-race", "./cmd/h"]
+        cmd = ["go", "build", "-race", "-tags", "verif", "-o", "bin/h-" + ctx.pid + "-race", "./cmd/" + ctx.pid.lower()]
         p = subprocess.run(cmd, cwd=hdir, env=goenv(), stdout=subprocess.PIPE, stderr=subprocess.STDOUT, text=True)
         if p.returncode != 0:
             print(p.stdout)
